@@ -42,6 +42,13 @@ CHECKS = {
              ref="5/C18", note="Trusted: the pipe-driven scheduler mc/xproc.py and the proxies installed by shadowing files.open / files.mmap (they delegate to the real file / mmap objects); the OS.",
              text="Real fork()ed processes sharing one opened RandomLineAccessFile / MemoryMappedRandomLineAccessFile / MapAccessFile (5 lines x 6 kB): every interleaving of open/close/seek/"
                   "readline of parent + 1 child (all), parent + 2 children (<=2 quick / <=3 preemptions), grandchild and 3-read sequences (thorough); every read of every process must equal the reference line."),
+ "C06": dict(engine="seqmc", technique="explicit-state exploration of the real object vs a nondeterministic ordered-dict reference (whole reachable graph per capacity)",
+             text="Whole reachable state graph of the real LRUCache for capacities 1-3 (quick) / 1-4, keys {0..c}, 2 values, under the full MutableMapping menu (store, lookup, delete, in, len, "
+                  "views, get, pop, popitem, clear, update, setdefault, ==); reference = set of possible ordered dicts (latitude for `in`, popitem, view look-ups); every library call under a "
+                  "deterministic step budget (termination); internal dict/list agreement and link walk after every transition.", ref="5/C06", note=SEQ_NOTE),
+ "C07": dict(engine="seqmc", technique="explicit-state exploration of the real object vs a nondeterministic use-count reference (depth-bounded, state dedup with subsumption)",
+             text="All operation sequences on the real LFUCache to depth 8 (capacities 1-2) / 4 quick - 6 thorough (capacity 3) from an empty and a warm cache; reference key -> (value, count) sets "
+                  "with latitude for `in` and view look-ups; oracle: latest value, single victim with minimal count, non-decreasing iteration order, views terminate and agree.", ref="5/C07", note=SEQ_NOTE),
  "C08": dict(engine="seqmc", technique="explicit-state exploration of the real object vs reference model (whole reachable graph, bounded size)",
              text="Every mutator applied in every reachable state (list size <= 5 quick / 7 thorough) of the real DoublyLinkedList in three payload modes "
                   "(distinct, all equal, uncomparable), each followed by a full forward/backward link walk, len() and iteration against a list of node "
